@@ -192,7 +192,8 @@ def static_compile(case, glyphsets=True):
         kw["filters"] = [fc.make_filter(s) if s != "..." else ... for s in kw["filters"]]
     fn = ufo2ft.compileOTF if flavor == "cff" else ufo2ft.compileTTF
     kw.setdefault("useProductionNames", False)
-    src = absfont.abs_glyphset({g.name: g for g in font})
+    # (layerName: the glyphs of that layer are what is compiled; lib and info are the font's)
+    src = absfont.abs_glyphset({g.name: g for g in (font.layers[kwargs["layerName"]] if kwargs.get("layerName") else font)})
     skip = kwargs.get("skipExportGlyphs")
     if skip is None:
         skip = (case["ufo"].get("lib") or {}).get("public.skipExportGlyphs", [])
